@@ -434,6 +434,8 @@ def fn_source(case: dict, name: str = "f") -> str:
         if p.get("kwonly_marker"):
             s = "*, " + s
         params.append(s)
+        if p.get("posonly_end"):
+            params.append("/")     # this and all earlier parameters are positional-only
     ret = "" if case.get("ret") is None else " -> " + hint_src(case["ret"])
     prov = case.get("provider")
     if prov is None:
